@@ -130,6 +130,7 @@ type FuncCtx struct {
 	havocSources  []Term
 	inlineStack   []string // repository functions without a contract being executed in place
 	notes         []string
+	pendingAlias  []pendingAlias // set by the last call whose contract has `aliases` clauses; consumed by the assignment
 	renamed       map[*types.Var]bool
 	rangeAlias    map[string]*types.Var // range_i / range_iN -> counting variable of a for loop
 	nameAlias     map[string]*types.Var // contract name -> variable, for variables renamed since the contract was written
